@@ -1050,7 +1050,8 @@ def check_initiator(my_mode, otsi, otsr, transport, rtsi, rtsr):
     return None
 
 
-# the witness of Props/C12.v C12_rekey_same_refuted (rk_c1, rk_c0) on the real code
+# finding F15 (fixed by a2cebd1): rekey of an SA belonging to the 2nd, wider entry was answered with the selectors of
+# the 1st, narrower entry (coq/ts/TsNarrow.v rekey_witness_fixed is the same input on the model)
 REKEY_WITNESS = dict(
     protect=[(1, 1, (7, 6, 80, 80, 167772416, 167772671), (7, 6, 0, 65535, 167772672, 167772927)),
              (2, 1, (7, 0, 0, 65535, 167772416, 167772671), (7, 0, 0, 65535, 167772672, 167772927))],
@@ -1079,9 +1080,18 @@ def oracle(ctx, deep):
         add(check_responder(*gen_responder(ctx, rel)))
     for _ in range(3000 if deep else 300):
         add(check_initiator(*gen_initiator(ctx, rel)))
-    w = REKEY_WITNESS
-    add(check_responder(w['protect'], w['rekey'], w['tsis'], w['tsrs'], w['transport']))
     return fails
+
+
+def regressions(ctx):
+    w = REKEY_WITNESS
+    ctx.case(['regression:F15', w], nontrivial=True)
+    f = check_responder(w['protect'], w['rekey'], w['tsis'], w['tsrs'], w['transport'])
+    if f is None and not isinstance(impl_responder(w['protect'], w['rekey'], w['tsis'], w['tsrs'], w['transport']), list):
+        f = Failure('property', 'ts:rekey-selectors-differ-from-replaced-sa',
+                    'the F15 rekey request is no longer accepted at all', dict(kind='responder', **{
+                        k: w[k] for k in ('protect', 'rekey', 'tsis', 'tsrs', 'transport')}))
+    return [f] if f is not None else []
 
 
 def _tup(x):
@@ -1109,7 +1119,7 @@ def replay(ctx, obj):
 
 CHECK = core.Check(
     'C12', CLUSTER, 'Props/C12.v', translate=translate, correspond=correspond, oracle=oracle, replay=replay,
-    deps=('lib',),
+    regressions=regressions, deps=('lib',),
     rule='(1) selector pairs: exhaustive product over a small universe (2 families x 3 protocols x 7 port ranges x '
          'address ranges, incl. empty ranges) when it fits the tier budget, else a seeded sample of it, plus random '
          'wide IPv4/IPv6 ranges; (2) get_network/get_port of the universe and of random ranges (incl. reversed); '
@@ -1133,6 +1143,7 @@ CHECK = core.Check(
                  'mixed families get_network would not terminate',
                  'the selector/mode theorems cover the checks of _process_create_child_sa_negotiation_req/_res; that '
                  'nothing else installs a CHILD_SA is the pattern check of the translator (statement order), not a theorem',
-                 'C12_rekey_same holds only under the hypothesis of C12_rekey_same_partial; the unconditional '
-                 'statement is refuted (C12_rekey_same_refuted) and replayed on the real code'],
+                 'C12_rekey_same: the replaced CHILD_SA\'s selectors lie inside some entry of the current policy '
+                 '(established by C12_narrowing / C12_initiator_narrow for SAs created from the same policy; without '
+                 'it C12_rekey_same_needs_covering_entry shows a narrower - never wider - result)'],
 )
